@@ -155,6 +155,7 @@ pub enum BOp {
     // ---- C13 alphabet
     Id,
     ExtInst,
+    ExtInstExplicit(u32),
     IAddExplicit(u32),
     BeginBlockId(u32),
     /// generated type method `site` (index into type_calls), explicit id or not, argument variation
@@ -336,6 +337,10 @@ pub fn replay(h: &[BOp]) -> Replay {
                     ok = true
                 }
                 BOp::ExtInst => ok = res_word!(b.ext_inst(RT, None, 9, 1, vec![dr::Operand::IdRef(6)])),
+                BOp::ExtInstExplicit(id) => {
+                    explicit = true;
+                    ok = res_word!(b.ext_inst(RT, Some(*id), 9, 1, vec![dr::Operand::IdRef(6)]))
+                }
                 BOp::TypeCall(s, e, v) => {
                     let site = &type_calls()[*s];
                     let a = type_call_args(site, *e, *v);
@@ -447,11 +452,11 @@ pub fn replay(h: &[BOp]) -> Replay {
                         Pred::Ok { snap: append_block(&cur, inst("IAdd", Some(RT), ret_id, vec![Arg::IdRef(6), Arg::IdRef(7)])), sel, fresh: if explicit { None } else { ret_id } }
                     }
                 }
-                BOp::ExtInst => {
+                BOp::ExtInst | BOp::ExtInstExplicit(_) => {
                     if !in_block {
                         Pred::Fail
                     } else {
-                        Pred::Ok { snap: append_block(&cur, inst("ExtInst", Some(RT), ret_id, vec![Arg::IdRef(9), Arg::ExtInstNo(1), Arg::IdRef(6)])), sel, fresh: ret_id }
+                        Pred::Ok { snap: append_block(&cur, inst("ExtInst", Some(RT), ret_id, vec![Arg::IdRef(9), Arg::ExtInstNo(1), Arg::IdRef(6)])), sel, fresh: if explicit { None } else { ret_id } }
                     }
                 }
                 BOp::InsertNop(ip) | BOp::InsertRet(ip) => {
@@ -531,7 +536,11 @@ pub fn replay(h: &[BOp]) -> Replay {
                         viol = Some((format!("err-changed-module:{}", variant_name(op)), format!("step {} {}: returned Err but the module changed: {} -> {}", step, op_str(op), cur.brief(), after.brief())));
                         break 'steps;
                     }
-                    // selection: an error must not corrupt it either (invariant below); ids may have been reserved
+                    // "failed calls change nothing": the selection is part of what a failed call must leave alone
+                    if now_sel != sel {
+                        viol = Some((format!("err-changed-selection:{}", variant_name(op)), format!("step {} {}: returned Err but the selection changed from {:?} to {:?}", step, op_str(op), sel, now_sel)));
+                        break 'steps;
+                    }
                     next_hi = next_hi.saturating_add(1);
                     outcomes.push(format!("err:{}", variant_name(op)));
                     sel = now_sel;
@@ -594,6 +603,10 @@ pub fn replay(h: &[BOp]) -> Replay {
                         }
                         outcomes.push(format!("ok:{}", variant_name(op)));
                     } else {
+                        if now_sel != sel {
+                            viol = Some((format!("err-changed-selection:{}", variant_name(op)), format!("step {} {}: returned Err but the selection changed from {:?} to {:?}", step, op_str(op), sel, now_sel)));
+                            break 'steps;
+                        }
                         next_hi = next_hi.saturating_add(1);
                         outcomes.push(format!("err:{}", variant_name(op)));
                     }
